@@ -34,14 +34,14 @@ MUTANTS = {
         "    return map(lambda t: [x[attribute] for x in t] if utils.is_sequence(t) else operator(t, attribute), collection)\n")]),
     # ---- C04, how the data enters / host context chains
     # the parent walk of a variable lookup gives up after 5 contexts
-    'm4-lookup-depth-limit': ('C04', [(C, "        ctx = self.parent\n        while ask_parent and ctx:\n            result = ctx.get_data(name, utils.NO_VALUE, False)\n",
-                                       "        ctx = self.parent\n        hops = 0\n        while ask_parent and ctx and hops < 5:\n            hops += 1\n            result = ctx.get_data(name, utils.NO_VALUE, False)\n")]),
+    'm4-lookup-depth-limit': ('C04', [(C, "            return self._data[name]\n        ctx = self.parent\n        while ask_parent and ctx:\n            result = ctx.get_data(name, utils.NO_VALUE, False)\n",
+                                       "            return self._data[name]\n        ctx = self.parent\n        hops = 0\n        while ask_parent and ctx and hops < 5:\n            hops += 1\n            result = ctx.get_data(name, utils.NO_VALUE, False)\n")]),
     # evaluate() without data resets `$` on the context it is given
     'm5-evaluate-without-data-resets-dollar': ('C04', [(E, "            else:\n                context['$'] = data\n        return self(utils.NO_VALUE, context, self.engine)\n",
                                                        "            else:\n                context['$'] = data\n        else:\n            context['$'] = None\n        return self(utils.NO_VALUE, context, self.engine)\n")]),
     # contexts that carry functions are skipped when a variable is looked up ("library layers hold no data")
-    'm6-lookup-skips-function-layers': ('C04', [(C, "            result = ctx.get_data(name, utils.NO_VALUE, False)\n            if result is utils.NO_VALUE:\n",
-                                                "            result = utils.NO_VALUE if getattr(ctx, '_functions', None) else ctx.get_data(name, utils.NO_VALUE, False)\n            if result is utils.NO_VALUE:\n")]),
+    'm6-lookup-skips-function-layers': ('C04', [(C, "            return self._data[name]\n        ctx = self.parent\n        while ask_parent and ctx:\n            result = ctx.get_data(name, utils.NO_VALUE, False)\n",
+                                                "            return self._data[name]\n        ctx = self.parent\n        while ask_parent and ctx:\n            result = utils.NO_VALUE if getattr(ctx, '_functions', None) else ctx.get_data(name, utils.NO_VALUE, False)\n")]),
     # create_context(data=..) binds the document under another name
     'm7-create_context-binds-data-as-$0': ('C04', [(Y, "        context['$'] = utils.convert_input_data(data)\n    return context\n",
                                                    "        context['$0'] = utils.convert_input_data(data)\n    return context\n")]),
